@@ -13,7 +13,7 @@ def std(pkg, qprop, tprop, fuzz=None, grid_shards_thorough=1, level="exploration
         level=level,
         engine=engine or ("rapid+grid+gofuzz" if fuzz else "rapid+grid"),
         assumptions=list(COMMON_ASSUMPTIONS),
-        quick=dict(prop=qprop, prop_shards=1, grid_shards=1, timeout=600),
+        quick=dict(prop=qprop, prop_shards=1, grid_shards=1, timeout=300),
         thorough=dict(prop=tprop, prop_shards=16, grid_shards=grid_shards_thorough, timeout=3600),
     )
     if fuzz:
@@ -24,6 +24,11 @@ def std(pkg, qprop, tprop, fuzz=None, grid_shards_thorough=1, level="exploration
 
 
 PROPS = {
+    "C04": std("c04", 6000, 55000, fuzz=45, grid_shards_thorough=16),
+    "C10": std("c10", 20000, 200000),
+    "C05": std("c05", 20000, 20000, grid_shards_thorough=16, extra=dict(
+        engine="exhaustive enumeration + rapid", exhaustive_tiers=["thorough"],
+        thorough=dict(prop=20000, prop_shards=1, grid_shards=16, timeout=3600))),
     "C01": std("c01", 3000, 20000, fuzz=45, grid_shards_thorough=16),
     "C02": std("c02", 3000, 20000, fuzz=45, grid_shards_thorough=16),
     "C03": std("c03", 20000, 200000, grid_shards_thorough=16, extra=dict(
